@@ -440,3 +440,150 @@ pub fn square_clustering_oracle(g: &NormGraph) -> Vec<f64> {
         })
         .collect()
 }
+
+// ------------------------------------------------------------------------------------------------
+// O(n m log n) reference implementations for graphs too large for the cubic oracles. They are
+// independent re-implementations (validated against the brute-force oracles on every small case
+// by `self_test_fast_oracles`), used only for the large-size classes.
+
+/// adjacency lists (neighbour, cheapest weight) from the edge list
+pub fn adjacency_lists(g: &NormGraph, weighted: bool) -> Vec<Vec<(usize, f64)>> {
+    let mut best: Vec<std::collections::BTreeMap<usize, f64>> = vec![Default::default(); g.n];
+    for (i, j, x) in &g.edges {
+        let c = if weighted { *x } else { 1.0 };
+        let e = best[*i].entry(*j).or_insert(c);
+        if c < *e {
+            *e = c;
+        }
+        if !g.directed {
+            let e = best[*j].entry(*i).or_insert(c);
+            if c < *e {
+                *e = c;
+            }
+        }
+    }
+    best.into_iter().map(|m| m.into_iter().collect()).collect()
+}
+
+/// single-source distances, shortest-path counts and a settle order (Dijkstra with exact ties)
+fn sssp_counts(adj: &[Vec<(usize, f64)>], s: usize) -> (Vec<f64>, Vec<f64>, Vec<usize>, Vec<Vec<usize>>) {
+    let n = adj.len();
+    let mut dist = vec![INF; n];
+    let mut sigma = vec![0.0; n];
+    let mut preds: Vec<Vec<usize>> = vec![vec![]; n];
+    let mut done = vec![false; n];
+    let mut order = vec![];
+    let mut heap = std::collections::BinaryHeap::new();
+    dist[s] = 0.0;
+    sigma[s] = 1.0;
+    heap.push((std::cmp::Reverse(ordered(0.0)), s));
+    while let Some((std::cmp::Reverse(dk), v)) = heap.pop() {
+        if done[v] || dk != ordered(dist[v]) {
+            continue;
+        }
+        done[v] = true;
+        order.push(v);
+        for &(u, w) in &adj[v] {
+            if u == v {
+                continue;
+            }
+            let nd = dist[v] + w;
+            if nd < dist[u] {
+                dist[u] = nd;
+                sigma[u] = sigma[v];
+                preds[u] = vec![v];
+                heap.push((std::cmp::Reverse(ordered(nd)), u));
+            } else if nd == dist[u] && !done[u] {
+                sigma[u] += sigma[v];
+                preds[u].push(v);
+            }
+        }
+    }
+    (dist, sigma, order, preds)
+}
+
+/// total order on non-negative finite floats via their bit pattern
+fn ordered(x: f64) -> u64 {
+    (x + 0.0).to_bits()
+}
+
+/// Brandes' algorithm (raw values, ordered pairs; not rescaled)
+pub fn betweenness_fast(g: &NormGraph, weighted: bool) -> Vec<f64> {
+    let adj = adjacency_lists(g, weighted);
+    let n = g.n;
+    let mut bc = vec![0.0; n];
+    for s in 0..n {
+        let (_, sigma, order, preds) = sssp_counts(&adj, s);
+        let mut delta = vec![0.0; n];
+        for &w in order.iter().rev() {
+            for &v in &preds[w] {
+                delta[v] += sigma[v] / sigma[w] * (1.0 + delta[w]);
+            }
+            if w != s {
+                bc[w] += delta[w];
+            }
+        }
+    }
+    bc
+}
+
+/// closeness by one search per node on the reversed adjacency (incoming distances)
+pub fn closeness_fast(g: &NormGraph, weighted: bool, wf_improved: bool) -> Vec<f64> {
+    let n = g.n;
+    let rev = NormGraph { edges: g.edges.iter().map(|(i, j, w)| (*j, *i, *w)).collect(), ..g.clone() };
+    let adj = adjacency_lists(if g.directed { &rev } else { g }, weighted);
+    (0..n)
+        .map(|u| {
+            let (dist, _, _, _) = sssp_counts(&adj, u);
+            let reach: Vec<f64> = dist.into_iter().filter(|d| *d < INF).collect();
+            let r = reach.len() as f64;
+            let tot: f64 = reach.iter().sum();
+            if r <= 1.0 || tot <= 0.0 || n <= 1 {
+                0.0
+            } else {
+                let mut c = (r - 1.0) / tot;
+                if wf_improved {
+                    c *= (r - 1.0) / (n as f64 - 1.0);
+                }
+                c
+            }
+        })
+        .collect()
+}
+
+/// procedurally generated sparse graph for the large-size classes: ring + 2 pseudo-random chords
+/// per node; weights (when weighted) are dyadic k/4 so that sums are exact
+pub fn procedural_graph(n: usize, seed: u64, directed: bool, weighted: bool) -> NormGraph {
+    let mut edges = vec![];
+    let mut seen = std::collections::HashSet::new();
+    let mut s = seed | 1;
+    let mut add = |a: usize, b: usize, s: u64, edges: &mut Vec<(usize, usize, f64)>| {
+        if a == b {
+            return;
+        }
+        let key = if !directed && a > b { (b, a) } else { (a, b) };
+        if !seen.insert(key) {
+            return;
+        }
+        let w = if weighted { (((s >> 20) % 12) as f64 + 1.0) / 4.0 } else { f64::NAN };
+        edges.push((a, b, w));
+    };
+    for i in 0..n {
+        s = crate::core::mix(s, i as u64);
+        add(i, (i + 1) % n, s, &mut edges);
+        for _ in 0..2 {
+            s = crate::core::mix(s, 0x77);
+            add(i, (s % n as u64) as usize, s, &mut edges);
+        }
+    }
+    NormGraph {
+        directed,
+        multi: false,
+        loops: false,
+        n,
+        names: (0..n).map(|i| format!("v{:05}", (i * 7919 + 13) % 100_003)).collect(),
+        order: (0..n).collect(),
+        edges,
+        weighted,
+    }
+}
